@@ -78,7 +78,13 @@ pub fn gen(ctx: &Ctx) -> Vec<Value> {
         };
         // malformed stream: ≈15 % of the cases carry positions that violate the schema
         let cfg = if r.chance(1, 3) { ValCfg::strict() } else { ValCfg::new(if r.chance(3, 20) { 30 } else { 0 }) };
-        let rows: Vec<Value> = (0..nrows).map(|_| gen_schema::gen_record(&mut r, &schema, &cfg)).collect();
+        let mut rows: Vec<Value> = (0..nrows).map(|_| gen_schema::gen_record(&mut r, &schema, &cfg)).collect();
+        // a fifth of the cases announce wrong lengths at some container nodes (the call stream itself is unchanged)
+        if r.chance(1, 5) {
+            for row in rows.iter_mut() {
+                gen_schema::lie_hints(&mut r, row, 4);
+            }
+        }
         out.push(json!({"id": format!("build-{c:06}"), "seed": sub, "schema": schema, "rows": rows}));
     }
     out
